@@ -39,6 +39,59 @@ def roles_of(e, roles):
 
 
 def r14a(ctx, f):
+    """Role separation.  Violations cascade (a mixed-role variable taints every later sink), so they are grouped: the
+    first offending *definition* is reported as the root cause and the dependent sinks are listed under it."""
+    real_violation = ctx.violation
+    collected = []
+
+    def collect(rule, file, func, node, construct, detail, path=None):
+        collected.append((getattr(node, "lineno", 0), rule, file, func, node, construct, detail))
+    ctx.violation = collect
+    try:
+        _r14a(ctx, f)
+    finally:
+        ctx.violation = real_violation
+    if collected:
+        collected.sort(key=lambda x: x[0])
+        # root cause: the earliest assignment in main whose value mixes roles relative to its own name
+        root = _mixed_definition(f)
+        if root is not None:
+            node, name, rs, src = root
+            ctx.violation("R14a", f.file, "main", node, f"definition of {name}",
+                          f"`{name}` (a {role_of_name(name) or '?'}-role value) is computed from {sorted(rs)}-role inputs at line "
+                          f"{node.lineno}: `{norm(node, 70)}`. A value meant for one file is derived from the other file's options "
+                          f"(e.g. --from-mime deciding how the second file is parsed)",
+                          path=[f"dependent sink line {ln}: {detail[:110]}" for ln, *_r, detail in collected])
+        else:
+            ln, rule, file, func, node, construct, detail = collected[0]
+            ctx.violation(rule, file, func, node, construct, detail,
+                          path=[f"also line {l}: {d[:110]}" for l, *_r, d in collected[1:]])
+
+
+def _mixed_definition(f):
+    """First assignment `x = ...` in main where x's own name carries one role and the value (or its controlling
+    tests) carries the other."""
+    fn = f.node
+    best = None
+    for n in walk_no_nested(fn):
+        if isinstance(n, ast.Assign) and isinstance(n.targets[0], ast.Name):
+            own = role_of_name(n.targets[0].id)
+            if not own:
+                continue
+            byname = {x.id: {role_of_name(x.id)} for x in ast.walk(fn) if isinstance(x, ast.Name) and role_of_name(x.id)}
+            rs = roles_of(n.value, byname)
+            for a in ancestors(n):
+                if a is fn:
+                    break
+                if isinstance(a, (ast.If, ast.While)):
+                    rs |= roles_of(a.test, byname)
+            other = rs - {own}
+            if other and (best is None or n.lineno < best[0].lineno):
+                best = (n, n.targets[0].id, other, rs)
+    return best
+
+
+def _r14a(ctx, f):
     ctx.rule("R14a", "role separation in main: at get_filetype / build_tree_handling_errors / diff sinks and in the "
                      "error branches, the values used for the second file depend only on to-role options "
                      "(args.to_*, TO_PATH) and those for the first only on from-role options")
